@@ -460,8 +460,9 @@ def rule_table_shape(eng, rep, rule="C18-4.diagnostic-table-shape"):
         rep.bad(rule, "docs/diagnostic.rst", "docs|column-documented-missing|%s" % c, "documented column '%s' does not exist" % c)
     if set(cols) == set(documented):
         rep.ok(rule, "docs/diagnostic.rst", "documented columns = initialised columns (%d)" % len(cols))
-    # exactly one append per column on every path
-    cfg = eng.cfg(si)
+    # exactly one append per column on every path (a loop over a literal tuple of column names is unrolled first)
+    from .common import unrolled
+    _view, cfg = unrolled(eng, si)
     from .c20 import _append_column
     appends = {}
     for n, d in cfg.g.nodes(data=True):
